@@ -15,8 +15,8 @@ HARNESSES = [
 ]
 LEVEL_TEXT = ('Bounded model checking of the real Range fix-up code for character-data edits, one step from an arbitrary valid range state (inductive-step style): for ALL containers among real Text/Comment/'
               'DocumentFragment nodes and ALL 62-bit offsets, lengths and edit sizes the boundary points end where DOM Range specifies and remain valid.')
-LEVEL_NOTE = ('NOT claimed: node insertion/removal fix-up (updateRangeForInsertedNode/DeletedNode), NodeIterator/TreeWalker/deep node lists/getElementById/XPath results, range content operations (extract/clone/delete/surround). '
-              'The fix-up functions are driven directly with the arguments of their call sites in DOMCharacterDataImpl/DOMTextImpl (the call sites themselves sit behind a virtual call on the document object that could not be encoded, see C13).')
+LEVEL_NOTE = ('NOT claimed: node insertion/removal fix-up of ranges (updateRangeForInsertedNode/DeletedNode), NodeIterator (harness iterfix exists for the removal fix-up, no verdict: gated off), TreeWalker/deep node lists/getElementById/XPath results, range content operations (extract/clone/delete/surround). '
+              'rangetext_*: the fix-up functions driven directly from an arbitrary range state; rangeedit_*: the real call sites (insertData/deleteData/replaceData on a text node with a live Range registered on the document).')
 
 # end-to-end: real insertData/deleteData/replaceData with a live Range registered on the document
 CLAIMS.update({'rangeedit_' + o: 'DOMTextImpl::%s (real call sites) with one live Range in the node: boundary points end where DOM Range puts them, stay valid; refused edits leave the Range untouched' % f
@@ -30,4 +30,18 @@ HARNESSES += [
       cuts=['_ZN11xercesc_4_09DOMBuffer14expandCapacityEmb', '_ZN11xercesc_4_020DOMCharacterDataImplC[12]EPNS_11DOMDocumentEPKDs', '_ZN11xercesc_4_020DOMCharacterDataImplD[12]Ev'],
       defs={'quick': {'N': 2, 'OP': op}, 'thorough': {'N': 3, 'OP': op}}, unwind={'quick': 6, 'thorough': 8}, timeout={'quick': 900, 'thorough': 2400}, mem_gb=14, unwind_gentle=True, unwind_cap=24)
  for op in (1, 2, 3)
+]
+
+# NodeIterator fix-up on removal (fixed tree, arbitrary iterator state)
+if __import__('os').environ.get('VX_C14_ITER'): CLAIMS.update({'iterfix_' + nm: 'DOMNodeIteratorImpl::removeNode(%s) on the tree R(A(A1,A2),B) of real Element/Text objects, arbitrary reference node and direction:' % nm for nm in ('A', 'A1', 'A2', 'B')} if False else {'iterfix_' + nm: 'DOMNodeIteratorImpl::removeNode(' + nm + ') on the tree R(A(A1,A2),B) of real Element/Text objects, arbitrary reference node and direction: new reference node and direction as DOM Level 2 Traversal 1.1.1 prescribes, never inside the removed subtree' for nm in ('A', 'A1', 'A2', 'B')})
+
+HARNESSES += [
+ dict(name='iterfix_' + nm, entry='harness_iterfix', srcs=['C14/iterfix.cpp', 'C13/domstubs.cpp', 'C13/elemstubs.cpp'],
+      tus=['dom/impl/DOMNodeIteratorImpl.cpp', 'dom/impl/DOMElementImpl.cpp', 'dom/impl/DOMTextImpl.cpp', 'dom/impl/DOMParentNode.cpp', 'dom/impl/DOMCharacterDataImpl.cpp',
+           'dom/impl/DOMNodeImpl.cpp', 'dom/impl/DOMChildNode.cpp', 'dom/impl/DOMNodeListImpl.cpp', 'dom/impl/DOMStringPool.cpp', 'util/XMLString.cpp'],
+      cuts_everywhere=['_ZN11xercesc_4_015DOMDocumentImpl15getPooledStringEPKDs', '_ZnwmPN11xercesc_4_015DOMDocumentImplE'],
+      cuts=['_ZN11xercesc_4_09DOMBuffer14expandCapacityEmb', '_ZN11xercesc_4_020DOMCharacterDataImplC[12]EPNS_11DOMDocumentEPKDs', '_ZN11xercesc_4_020DOMCharacterDataImplD[12]Ev',
+            '_ZN11xercesc_4_014DOMElementImpl22setupDefaultAttributesEv', '_ZNK11xercesc_4_011DOMNodeImpl20callUserDataHandlersENS_18DOMUserDataHandler16DOMOperationTypeEPKNS_7DOMNodeEPS3_'],
+      defs={'all': {'REM': rem}}, unwind=8, timeout={'quick': 1200, 'thorough': 2400}, mem_gb=24)
+ for rem, nm in (((1, 'A'), (2, 'A1'), (3, 'A2'), (4, 'B')) if __import__('os').environ.get('VX_C14_ITER') else ())      # solver out of memory at 24 GB: gated off, not claimed
 ]
